@@ -40,6 +40,7 @@ def generate(prop, rng, run, tier):
     n = rng.randint(0, 14) if start != "corpus" else rng.randint(0, 4)
     if rng.random() < 0.05:
         n = rng.randint(15, 40)
+    many_charts = start != "corpus" and rng.random() < 0.04
     nch = 0 if start in ("blank", "empty", "noargs") else 3
     seq = []
     model_keys_hint = ["TITLE", "ARTIST", "BPMS", "OFFSET", "MUSIC"] if start != "empty" else []
@@ -52,6 +53,11 @@ def generate(prop, rng, run, tier):
             weights[k] = 0
     if rng.random() < 0.15:
         weights["chart"] = 0
+    if many_charts:
+        # many charts at once (counts random edit sequences rarely reach)
+        for _ in range(rng.randint(8, 30)):
+            seq.append({"op": "charts_append", "chart": gen.gen_chart_spec(rng, fmt, profile)})
+            nch += 1
     after_save = False
     for _ in range(n):
         r = rng.random()
